@@ -191,47 +191,39 @@ def r185(repo, ctx):
     defs = single_defs(c)
     pn = U.params(c)
     gr, z = pn[1], pn[2]
-    res = {}
-    for nm in ('upper', 'lower'):
-        e = defs.get(nm)
-        if e is None:
-            continue
-        e = inline(e, {k: v for k, v in defs.items() if k not in ('upper', 'lower')})
-        if isinstance(e, ast.BinOp) and isinstance(e.op, (ast.Add, ast.Sub)) and isinstance(e.left, ast.Name) and e.left.id == gr:
-            n2, d2, s2 = factors(e.right)
-            res[nm] = (type(e.op).__name__, sorted(U.src(x) for x in n2 if not (isinstance(x, ast.Name) and x.id == z)), any(isinstance(x, ast.Name) and x.id == z for x in n2), d2)
-    ok = res.get('upper', (None,))[0] == 'Add' and res.get('lower', (None,))[0] == 'Sub' and all(v[1] == pref and v[2] and not v[3] for v in res.values()) and len(res) == 2
-    ctx.check(ok, 'R18.5', GG, 'GrainGrowthModel.constrainedGrowth', c, 'drag band = growth rate +/- alpha*M*gbe*z: the same prefactor as the growth law',
-              f'the Zener drag does not carry the prefactor of the growth law ({ {k: v[1] for k, v in res.items()} } vs {pref}): a drag that exceeds the driving pressure no longer freezes the structure',
-              construct='constrainedGrowth: upper/lower')
-    # selection: result = zeros; result[lower > 0] = lower[lower > 0]; result[upper < 0] = upper[upper < 0]; nothing else
+    # result = zeros; result[E1 > 0] = E1[E1 > 0]; result[E2 < 0] = E2[E2 < 0] with E1 = rate - alpha*M*gbe*z, E2 = rate + alpha*M*gbe*z
+    # (the band expressions are resolved through the locals that name them, whatever they are called)
     rets_c = [r for r in ast.walk(c) if isinstance(r, ast.Return)]
-    ok = False
+    bands, clean, ok_init, nstores = {}, True, False, 0
     if len(rets_c) == 1 and isinstance(rets_c[0].value, ast.Name):
         R = rets_c[0].value.id
         init = [s_ for s_ in ast.walk(c) if isinstance(s_, ast.Assign) and any(isinstance(t, ast.Name) and t.id == R for t in s_.targets)]
         ok_init = len(init) == 1 and isinstance(init[0].value, ast.Call) and U.call_name(init[0].value) in ('np.zeros', 'np.zeros_like')
         stores = [s_ for s_ in ast.walk(c) if isinstance(s_, (ast.Assign, ast.AugAssign))
                   and any(isinstance(t, ast.Subscript) and isinstance(t.value, ast.Name) and t.value.id == R for t in U.flat_targets(s_))]
-
-        def mask_of(e):
-            e = defs.get(e.id, e) if isinstance(e, ast.Name) and e.id not in ('upper', 'lower') else e
-            if isinstance(e, ast.Compare) and len(e.ops) == 1 and isinstance(e.left, ast.Name) and U.is_const(e.comparators[0], 0):
-                return (e.left.id, type(e.ops[0]).__name__)
-            return None
-        got = set()
-        clean = True
+        nstores = len(stores)
+        dd = {k: v for k, v in defs.items() if k != R}
         for s_ in stores:
             if not isinstance(s_, ast.Assign) or len(s_.targets) != 1:
                 clean = False
                 continue
-            m1 = mask_of(s_.targets[0].slice)
-            v = s_.value
-            if isinstance(v, ast.Subscript) and isinstance(v.value, ast.Name) and mask_of(v.slice) == m1 and m1 is not None and v.value.id == m1[0]:
-                got.add(m1)
+            m = inline(s_.targets[0].slice, dd)
+            v = inline(s_.value, dd)
+            if not (isinstance(m, ast.Compare) and len(m.ops) == 1 and U.is_const(m.comparators[0], 0) and isinstance(m.ops[0], (ast.Gt, ast.Lt))
+                    and isinstance(v, ast.Subscript) and U.dump(v.value) == U.dump(m.left) and U.dump(inline(v.slice, dd)) == U.dump(m)):
+                clean = False
+                continue
+            E = m.left
+            if isinstance(E, ast.BinOp) and isinstance(E.op, (ast.Add, ast.Sub)) and isinstance(E.left, ast.Name) and E.left.id == gr:
+                n2, d2, s2 = factors(E.right)
+                bands[type(m.ops[0]).__name__] = (type(E.op).__name__, sorted(U.src(x) for x in n2 if not (isinstance(x, ast.Name) and x.id == z)), any(isinstance(x, ast.Name) and x.id == z for x in n2), d2)
             else:
                 clean = False
-        ok = ok_init and clean and got == {('lower', 'Gt'), ('upper', 'Lt')} and len(stores) == 2
+    ok = bands.get('Lt', (None,))[0] == 'Add' and bands.get('Gt', (None,))[0] == 'Sub' and all(v[1] == pref and v[2] and not v[3] for v in bands.values()) and len(bands) == 2
+    ctx.check(ok, 'R18.5', GG, 'GrainGrowthModel.constrainedGrowth', c, 'drag band = growth rate +/- alpha*M*gbe*z: the same prefactor as the growth law',
+              f'the Zener drag does not carry the prefactor of the growth law ({ {k: v[1] for k, v in bands.items()} } vs {pref}): a drag that exceeds the driving pressure no longer freezes the structure',
+              construct='constrainedGrowth: upper/lower')
+    ok = ok_init and clean and set(bands) == {'Gt', 'Lt'} and nstores == 2 and bands.get('Gt', (None,))[0] == 'Sub' and bands.get('Lt', (None,))[0] == 'Add'
     ctx.check(ok, 'R18.5', GG, 'GrainGrowthModel.constrainedGrowth', c, 'grains grow only with the reduced rate, shrink only with the reduced rate, and are frozen inside the drag band',
               'the constrained growth rate is not (lower where lower > 0, upper where upper < 0, else 0): drag can reverse or accelerate a boundary', construct='constrainedGrowth: selection')
     gd = repo.func(GG, 'GrainGrowthModel.getdXdt')
